@@ -184,6 +184,10 @@ func (ft *FuncTr) callWith(st *State, at *Term, in ssa.Instruction, c *ssa.CallC
 		return Val{}, unsupported("callee " + name + " needs a contract")
 	}
 	con.Used = true
+	ft.recvTy = nil
+	if c.IsInvoke() {
+		ft.recvTy = c.Value.Type()
+	}
 	return ft.applyContract(st, at, in, name, con, fn, sig, argT, fnv)
 }
 
@@ -263,6 +267,9 @@ func (ft *FuncTr) applyContract(st *State, at *Term, in ssa.Instruction, name st
 	vars := map[string]SV{}
 	for i, n := range names {
 		ty := tys[i]
+		if i == 0 && ft.recvTy != nil && invoke {
+			ty = ft.recvTy
+		}
 		if ty == nil {
 			ty = types.NewInterfaceType(nil, nil)
 		}
@@ -548,6 +555,10 @@ func (ft *FuncTr) copyBuiltin(st *State, at *Term, in ssa.Instruction, c *ssa.Ca
 		from := Select(before, PElem(SlcArr(src), Add(SlcOff(src), Sub(idx, SlcOff(dst)))))
 		body := Eq(Select(after, p), Ite(inDst, from, Select(before, p)))
 		ft.assume(at, Forall([]Bound{{"cp", SPtr}}, body, []*Term{Select(after, p)}))
+		// index-level consequence (carries the triggers quantified specs need)
+		jq := &Term{"cj", SInt}
+		ft.assume(at, Forall([]Bound{{"cj", SInt}}, Implies(And(Le(IntLit(0), jq), Lt(jq, n)),
+			Eq(Select(after, SlcElemAddr(dst, jq)), Select(before, SlcElemAddr(src, jq)))), []*Term{SlcElemAddr(dst, jq)}, []*Term{SlcElemAddr(src, jq)}))
 		ft.h.setArr(st, an, after)
 	}
 	return Val{T: n}, nil
